@@ -431,7 +431,7 @@ PROPS["C20"] = dict(
 )
 
 PROPS["C11"] = dict(
-    harness="c11_races", flavour="rel", extra_targets={"tsan": ["c11_tsan_driver"]}, parallel=4,
+    harness="c11_races", flavour="rel", extra_targets={"tsan": ["c11_tsan_driver"]}, parallel=4, model_guard="tools/check_omp_constructs.py",
     quick=dict(workers=4, cases=160, min_nontrivial=80),
     thorough=dict(workers=4, cases=6000, min_nontrivial=2000, budget_s=3400),
     rule="(operator, shape class, thread count): operators ResidualGive/Take, SmootherGive/Take, ExtrapolatedSmootherGive/"
